@@ -101,6 +101,25 @@ Definition env_step (e : env) (c : chan) : chan :=
   | Reply => c
   end.
 
+(** A mirror connection's lifetime.  [epoch] counts the connections the mirror task has opened; a new one is
+    opened only by [Reconnect], and only when the task holds none ([Down]): initially, or after [Fail] / [FailSend]
+    (the connection was marked bad: read or write error) or [Close].  Nothing else -- in particular no reply of the
+    mirror (ReadyForQuery 'T' / 'E', SET, PREPARE, COPY, a reply handed over in parts) and no forwarded request --
+    ends it: ServerPool::has_broken closes a mirror's connection only when it is bad (pool.rs: the
+    `address.role != Role::Mirror` exemption; the role is stamped in MirroringManager::from_addresses). *)
+Definition is_failure (e : env) : bool :=
+  match e with Fail | FailSend | Close => true | _ => false end.
+
+(** one channel's view of a schedule: a buffer offered to it, or one of its own steps *)
+Definition chan_step (c : chan) (x : bytes + env) : chan :=
+  match x with
+  | inl b => if unavailable c then c else push b c
+  | inr e => env_step e c
+  end.
+
+Definition no_failure (xs : list (bytes + env)) : bool :=
+  forallb (fun x => match x with inl _ => true | inr e => negb (is_failure e) end) xs.
+
 (** * The primary server connection and Server::send *)
 
 Record srv := mkSrv {
